@@ -17,13 +17,19 @@ RULE = ("random operation sequences (register / unregister / register_function /
         "over 1-4 dynamically created resources and 2-5 message classes, class and string annotations, both "
         "dispatcher kinds, plus the exhaustive sweep of all sequences up to length L over 2 resources x 2 classes; "
         "non-trivial = the sequence contains a refused duplicate, or an unregister that removes a binding followed "
-        "by a dispatch or a registration of the same class")
+        "by a dispatch or a registration of the same class; message classes that SUBCLASS other message classes (routing is "
+        "by the class itself, not by a base); handler names that are private, dunder-like (__on_q, __handle__, __call__), a "
+        "single underscore, or the names of dispatcher methods; a derived resource that HIDES an inherited handler behind an "
+        "undecorated method or a plain attribute; TWO dispatchers alive in one process fed interleaved sequences (each must "
+        "behave as if alone, also when they share resource instances); long lives (thousands of operations on one "
+        "dispatcher); handlers that unregister / re-register / dispatch from inside the callback")
 ASSUMPTIONS = ["annotations are classes or strings; dir() order = sorted method names (computed independently by the harness)",
                "handlers are Python functions: a call with the wrong number of arguments raises TypeError before the body runs"]
 TRUSTED = ["handler bodies are opaque: an exception raised inside a handler propagates unchanged (dispatch has no try/except); not modelled"]
 
 NAMES = ["Ev0", "Ev1", "Ev2", "Ev3", "Msg", "msg", "Évé", "E", ""]
-MNAMES = ["on_a", "on_b", "on_c", "On_a", "_on_z", "handle", "Zeta", "alpha", "h1", "h10", "h2"]
+MNAMES = ["on_a", "on_b", "on_c", "On_a", "_on_z", "handle", "Zeta", "alpha", "h1", "h10", "h2",
+          "__on_q", "__handle__", "__call__", "_", "_0", "register", "dispatch", "__Zz", "on_é"]
 
 
 def _handler_exc():
@@ -44,7 +50,10 @@ class World:
         self.raise_now = None      # exception object the handler bodies raise after logging their call (dispatch ops with a 3rd field)
         self.tok = {}
         self.keep = []
-        self.classes = [type(n, (object,), {}) for n in spec["classes"]]
+        self.classes = []
+        for ci, n in enumerate(spec["classes"]):
+            b = (spec.get("class_bases") or [None] * len(spec["classes"]))[ci]
+            self.classes.append(type(n, (object,) if b is None else (self.classes[b],), {}))
         self.rclasses, self.merged, self.insts = [], [], []
         deco_fn = [server_event, client_event]
         for ri, rs in enumerate(spec["resources"]):
@@ -66,6 +75,11 @@ class World:
                 if rs.get("base") is not None:
                     base = self.rclasses[rs["base"]]
                     merged = dict(self.merged[rs["base"]])
+                for hname, how in rs.get("hide", []):
+                    if hname in merged and hname not in ns:
+                        # the derived class hides an inherited handler: an undecorated method or a plain attribute
+                        ns[hname] = (lambda self, *a: None) if how == 0 else 7
+                        del merged[hname]
                 for mname, ann, deco in rs["methods"]:
                     merged[mname] = (ann, deco)
                 cls = type("Res%d" % ri, (base,), ns)
@@ -132,48 +146,67 @@ class World:
                 out.append([key.encode("utf-8"), fn._hid, fn._arity])
         return out
 
+    def new_dispatcher(self, kind):
+        from mpgameserver.dispatch import ServerMessageDispatcher, ClientMessageDispatcher
+        return ServerMessageDispatcher() if kind == 0 else ClientMessageDispatcher()
+
+    def step(self, d, kind, i, op):
+        """operation number i of a sequence on dispatcher d: the outcome"""
+        from mpgameserver import SeqNum
+        del self.log[:]
+        if op[0] == "reg":
+            return lib.guarded(d.register, self.insts[op[1]], wrap=lambda x: 0)
+        if op[0] == "unreg":
+            return lib.guarded(d.unregister, self.insts[op[1]], wrap=lambda x: 0)
+        if op[0] == "regfn":
+            return lib.guarded(d.register_function, self.annobj(op[1]), self.rawfn(op[2], op[3]), wrap=lambda x: 0)
+        if op[0] == "unregfn":
+            return lib.guarded(d.unregister_function, self.annobj(op[1]), wrap=lambda x: 0)
+        client, seqnum, msg = object(), SeqNum(1 + i % 60000), self.classes[op[1]]()
+        self.keep.append((client, seqnum, msg))
+        if len(self.keep) > 64:
+            del self.keep[:32]
+        tok = {id(client): 3 * i, id(seqnum): 3 * i + 1, id(msg): 3 * i + 2}
+        self.raise_now = HANDLER_EXC[op[2]]("raised by the handler body") if len(op) > 2 and op[2] is not None else None
+        try:
+            if kind == 0:
+                d.dispatch(client, seqnum, msg)
+            else:
+                d.dispatch(seqnum, msg)
+            r = [0, [[h, [tok.get(id(a), -1) for a in args]] for h, args in self.log]]
+            if self.raise_now is not None and self.log:
+                r = [1, lib.ERR["DispatchError"], ["handler exception swallowed", [h for h, _ in self.log]]]
+        except Exception as e:   # noqa
+            if e is self.raise_now and self.log:
+                # the handler was invoked and ITS OWN exception object came out of dispatch(): the invocation
+                # is reported as it is for a handler that returns
+                r = [0, [[h, [tok.get(id(a), -1) for a in args]] for h, args in self.log]]
+            else:
+                r = [1, lib.exc_code(e)] + ([["called", [h for h, _ in self.log]]] if self.log else [])
+        finally:
+            self.raise_now = None
+        return r
+
     def run(self, kind, ops):
         """fresh dispatcher; returns (table, outcomes)"""
-        from mpgameserver.dispatch import ServerMessageDispatcher, ClientMessageDispatcher
-        from mpgameserver import SeqNum
-        d = ServerMessageDispatcher() if kind == 0 else ClientMessageDispatcher()
-        outs = []
-        for i, op in enumerate(ops):
-            del self.log[:]
-            if op[0] == "reg":
-                outs.append(lib.guarded(d.register, self.insts[op[1]], wrap=lambda x: 0))
-            elif op[0] == "unreg":
-                outs.append(lib.guarded(d.unregister, self.insts[op[1]], wrap=lambda x: 0))
-            elif op[0] == "regfn":
-                outs.append(lib.guarded(d.register_function, self.annobj(op[1]), self.rawfn(op[2], op[3]), wrap=lambda x: 0))
-            elif op[0] == "unregfn":
-                outs.append(lib.guarded(d.unregister_function, self.annobj(op[1]), wrap=lambda x: 0))
-            else:
-                client, seqnum, msg = object(), SeqNum(1 + i % 60000), self.classes[op[1]]()
-                self.keep.append((client, seqnum, msg))
-                tok = {id(client): 3 * i, id(seqnum): 3 * i + 1, id(msg): 3 * i + 2}
-                self.raise_now = HANDLER_EXC[op[2]]("raised by the handler body") if len(op) > 2 and op[2] is not None else None
-                try:
-                    if kind == 0:
-                        d.dispatch(client, seqnum, msg)
-                    else:
-                        d.dispatch(seqnum, msg)
-                    r = [0, [[h, [tok.get(id(a), -1) for a in args]] for h, args in self.log]]
-                    if self.raise_now is not None and self.log:
-                        r = [1, lib.ERR["DispatchError"], ["handler exception swallowed", [h for h, _ in self.log]]]
-                except Exception as e:   # noqa
-                    if e is self.raise_now and self.log:
-                        # the handler was invoked and ITS OWN exception object came out of dispatch(): the invocation
-                        # is reported as it is for a handler that returns
-                        r = [0, [[h, [tok.get(id(a), -1) for a in args]] for h, args in self.log]]
-                    else:
-                        r = [1, lib.exc_code(e)] + ([["called", [h for h, _ in self.log]]] if self.log else [])
-                finally:
-                    self.raise_now = None
-                outs.append(r)
-            if len(self.keep) > 64:
-                del self.keep[:32]
+        d = self.new_dispatcher(kind)
+        outs = [self.step(d, kind, i, op) for i, op in enumerate(ops)]
         return [self.table(d), outs]
+
+    def run_interleaved(self, kind, seqs, schedule):
+        """several dispatchers alive at once; schedule = which sequence advances next"""
+        ds = [self.new_dispatcher(kind) for _ in seqs]
+        pos = [0] * len(seqs)
+        outs = [[] for _ in seqs]
+        for k in schedule:
+            if pos[k] < len(seqs[k]):
+                outs[k].append(self.step(ds[k], kind, pos[k], seqs[k][pos[k]]))
+                pos[k] += 1
+        for k in range(len(seqs)):
+            while pos[k] < len(seqs[k]):
+                outs[k].append(self.step(ds[k], kind, pos[k], seqs[k][pos[k]]))
+                pos[k] += 1
+        return [[self.table(d), o] for d, o in zip(ds, outs)]
 
     # ---- the same case for the model
     def v_ann(self, ann):
@@ -263,6 +296,7 @@ def gen_world(rng):
     if len(classes) < 2:
         classes.append("Other")
     kind = rng.randrange(2)
+    class_bases = [rng.randrange(ci) if ci > 0 and rng.random() < 0.3 else None for ci in range(len(classes))]
     resources = []
     for ri in range(rng.randrange(1, 5)):
         c = rng.random()
@@ -272,6 +306,9 @@ def gen_world(rng):
         rs = {"methods": [], "extras": rng.random() < 0.3}
         if ri > 0 and c < 0.27:
             rs["base"] = rng.choice([j for j in range(ri) if resources[j].get("same_as") is None])
+            inherited = [m[0] for m in resources[rs["base"]]["methods"]]
+            if inherited and rng.random() < 0.5:
+                rs["hide"] = [[rng.choice(inherited), rng.randrange(2)]]
         for mname in rng.sample(MNAMES, rng.choice([0, 1, 1, 2, 2, 3, 4])):
             if rng.random() < 0.6:
                 ann = [0, rng.randrange(len(classes))]
@@ -280,7 +317,7 @@ def gen_world(rng):
             deco = kind if rng.random() < 0.9 else 1 - kind
             rs["methods"].append([mname, ann, deco])
         resources.append(rs)
-    return {"classes": classes, "resources": resources}, kind
+    return {"classes": classes, "class_bases": class_bases, "resources": resources}, kind
 
 
 def gen_ops(rng, spec, n):
@@ -447,6 +484,99 @@ def decorate_cases(run):
                                  "MessageDispatcher.dispatch")
 
 
+def independence_oracle(run, world, kind, seqs):
+    """two (three) dispatchers alive in one process, their sequences interleaved: each must end with the table and
+    the outcomes it has when it runs alone (the property speaks of ONE dispatcher's registrations)"""
+    rng = run.rng
+    sched = [rng.randrange(len(seqs)) for _ in range(sum(len(s) for s in seqs))]
+    together = world.run_interleaved(kind, seqs, sched)
+    for k, s in enumerate(seqs):
+        alone = world.run(kind, s)
+        run.evaluations += 1
+        if together[k] != alone:
+            j = next((i for i, (a, b) in enumerate(zip(together[k][1], alone[1])) if a != b), len(s) - 1)
+            run.oracle_violation("dispatcher-not-independent",
+                                 {"world": world.spec, "kind": kind, "ops": s[:j + 1], "step": j, "other_sequences": [x for i, x in enumerate(seqs) if i != k],
+                                  "schedule": sched[:40], "observed": lib.jsonable(together[k][1][j] if j < len(together[k][1]) else together[k][0]),
+                                  "expected": lib.jsonable(alone[1][j] if j < len(alone[1]) else alone[0])},
+                                 "MessageDispatcher (two instances in one process)")
+        run.nt(("independent", repr(world.spec), kind, repr(s), tuple(sched[:20])))
+
+
+def reentrant_oracle(run):
+    """operations issued from inside a handler: the handler unregisters its own resource; a handler dispatches another
+    message; a handler re-registers.  Judged from the property text: exactly the registered handler runs, once, with
+    the arguments; after unregister(resource) its classes raise DispatchError; it can be registered again."""
+    from mpgameserver.dispatch import ServerMessageDispatcher, ClientMessageDispatcher, DispatchError, server_event, client_event
+    for kind in (0, 1):
+        Ev0, Ev1, Ev2 = (type(n, (object,), {}) for n in ("Ev0", "Ev1", "Ev2"))
+        log = []
+        d = ServerMessageDispatcher() if kind == 0 else ClientMessageDispatcher()
+        deco = server_event if kind == 0 else client_event
+
+        def call(msg, *extra):
+            return d.dispatch("client", 7, msg) if kind == 0 else d.dispatch(7, msg)
+
+        def mk(name, body):
+            if kind == 0:
+                def h(self, client, seqnum, msg):
+                    log.append((name, client, seqnum, msg))
+                    body(self)
+            else:
+                def h(self, seqnum, msg):
+                    log.append((name, "client", seqnum, msg))
+                    body(self)
+            h.__name__ = name
+            return h
+        ns = {}
+        for name, cls, body in (("on_quit", Ev0, lambda self: d.unregister(self)),
+                                ("on_nest", Ev1, lambda self: call(Ev0())),
+                                ("on_again", Ev2, lambda self: (d.unregister(self), d.register(self)))):
+            f = mk(name, body)
+            f.__annotations__ = {"msg": cls}
+            ns[name] = deco(f)
+        R = type("Reentrant", (object,), ns)
+        res = R()
+        site = "MessageDispatcher.dispatch (operations from inside the handler)"
+
+        def expect(what, cond, **case):
+            run.evaluations += 1
+            if not cond:
+                run.oracle_violation(what, dict(case, kind=kind, world="re-entrant resource", log=[x[0] for x in log]), site)
+        d.register(res)
+        m = Ev2()
+        del log[:]
+        r = lib.guarded(call, m, wrap=lambda x: 0)
+        expect("dispatch-wrong-handler", r == [0, 0] and [x[0] for x in log] == ["on_again"] and log[0][3] is m, step="handler re-registers itself", observed=r)
+        expect("unregister-not-inverse", sorted(d.registered_events) == ["Ev0", "Ev1", "Ev2"], step="table after re-register inside handler",
+               observed=sorted(d.registered_events))
+        del log[:]
+        m = Ev1()
+        r = lib.guarded(call, m, wrap=lambda x: 0)
+        expect("dispatch-wrong-handler", r == [0, 0] and [x[0] for x in log] == ["on_nest", "on_quit"] and log[0][3] is m,
+               step="nested dispatch; inner handler unregisters the resource", observed=r)
+        expect("unregister-not-inverse", d.registered_events == {}, step="table after unregister inside handler", observed=sorted(d.registered_events))
+        for cls in (Ev0, Ev1, Ev2):
+            del log[:]
+            try:
+                call(cls())
+                r = "returned"
+            except DispatchError:
+                r = "DispatchError"
+            except Exception as e:      # noqa
+                r = type(e).__name__
+            expect("unregistered-handler-invoked" if log else "dispatch-unknown-wrong-error", r == "DispatchError" and not log,
+                   step="dispatch after the resource unregistered itself", observed=r)
+        r = lib.guarded(d.register, res, wrap=lambda x: 0)
+        expect("register-refused", r == [0, 0] and sorted(d.registered_events) == ["Ev0", "Ev1", "Ev2"], step="register again", observed=r)
+        del log[:]
+        m = Ev0()
+        r = lib.guarded(call, m, wrap=lambda x: 0)
+        expect("dispatch-wrong-handler", r == [0, 0] and [x[0] for x in log] == ["on_quit"] and log[0][3] is m and log[0][2] == 7,
+               step="dispatch after registering again", observed=r)
+        run.nt(("reentrant", kind))
+
+
 # ------------------------------------------------------------------ the run
 
 def run(run):
@@ -469,11 +599,22 @@ def run(run):
         seqs = [gen_ops(run.rng, spec, run.rng.randrange(1, 15)) for _ in range(8)]
         impl = process(run, w, kind, seqs)
         inverse_oracle(run, w, kind, run.rng.choice(seqs)[:run.rng.randrange(0, 6)])
+        if wi % 3 == 0:
+            independence_oracle(run, w, kind, run.rng.sample(seqs, run.rng.choice([2, 2, 3])))
         if wi < 2:
             run.sample({"unit": "disp_run", "world": spec, "kind": kind, "ops": seqs[0], "impl": lib.jsonable(impl[0])})
         run.count("worlds")
         run.count("annotations_class", sum(1 for r in spec["resources"] for m in r["methods"] if m[1][0] == 0))
         run.count("annotations_string", sum(1 for r in spec["resources"] for m in r["methods"] if m[1][0] == 1))
+    # long lives: thousands of operations on one dispatcher
+    for li in range(6 if run.thorough() else 2):
+        spec, kind = gen_world(run.rng)
+        w = World(spec)
+        process(run, w, kind, [gen_ops(run.rng, spec, 12000 if run.thorough() else 2500)])
+        run.count("long_sequences")
+    for spec, kind, seqs in sweep_cases(2):
+        independence_oracle(run, World(spec), kind, [seqs[-1], seqs[-7], seqs[5]])
+    reentrant_oracle(run)
     decorate_cases(run)
     run.rules.append(RULE)
 
